@@ -82,10 +82,14 @@ class Tiling:
 
     def on_marshal(self, ev):
         self.finish_regions(ev.path)
+        if ev.value is None and len(ev.path) == 1:
+            # a new message: paths repeat from here on
+            self.ptypes = {}
+            self.msg_start = self.pos
         self.ptypes[ev.path] = ev.tname
         if ev.value is None:
-            if len(ev.path) == 1:
-                self.msg_start = self.pos
+            # a structure seen again at the same path (list element paths are unique, so this is a new instance)
+            self.ptypes.pop(("#children", ev.path), None)
             return
         b = ev.chunk if isinstance(ev.chunk, bytes) else b""
         w = len(b)
